@@ -1,4 +1,5 @@
 import QM.FsLemmas
+import QM.FsDropins
 import QM.Props.C15
 /-! # C13 — search order picks among same-named files; drop-ins come from every search dir
 
@@ -28,5 +29,45 @@ theorem C13_merge_order (main : MM.SUnit) (dropins : List MM.SUnit) (hnd : ∀ f
     assignments (dropins.foldl MM.mergeFrom main) sec key
       = assignments main sec key ++ dropins.flatMap (assignments · sec key) :=
   C15_history main dropins hnd sec key
+
+
+/-! ### drop-ins
+
+`loadDropins t q = (sortConfs (collectConfs t (dropinDirs (allDirs t) q.name))).foldl (mergeStep t) (q, false)`:
+the statements below are about the list that is merged. -/
+
+/-- the drop-in directories of a unit: `<dir>/<unit>.d` for every directory of the search order, in that order; for a
+    template instance followed by `<dir>/<base>@.<type>.d` for every directory, the base ending at the first '@' -/
+theorem C13_dropin_dirs (dirs : List Str) (n : Str) :
+    dropinDirs dirs n = dirs.map (fun d => d ++ '/' :: n ++ s ".d") ++
+      (match templateParts n with
+       | (some b, some _) => dirs.map (fun d => d ++ '/' :: b ++ s "@." ++ extension n ++ s ".d")
+       | _ => []) := rfl
+
+/-- at most one drop-in per file name is merged -/
+theorem C13_dropins_one_per_name (t : Tree) (dd : List Str) : ((sortConfs (collectConfs t dd)).map Prod.fst).Nodup :=
+  ((sortConfs_perm _).map Prod.fst).nodup_iff.mpr (collect_names_nodup t dd)
+
+/-- … it comes from the first directory, in priority order, that holds a `*.conf` of that name: a drop-in in an earlier
+    directory hides the same name in every later one -/
+theorem C13_dropins_first_dir_wins (t : Tree) (dd : List Str) : ∀ c ∈ sortConfs (collectConfs t dd), FromFirst t dd c :=
+  fun c hc => collect_from_first t dd c ((sortConfs_perm _).subset hc)
+
+/-- … every name found in any of the directories is merged (from some directory) -/
+theorem C13_dropins_complete (t : Tree) (dd : List Str) (d n : Str) (hd : d ∈ dd) (hn : n ∈ confsIn t d) :
+    n ∈ (sortConfs (collectConfs t dd)).map Prod.fst :=
+  ((sortConfs_perm _).map Prod.fst).symm.subset (collect_complete t dd d n hd hn)
+
+/-- … and they are merged in byte-wise name order, whatever directories they come from -/
+theorem C13_dropins_name_order (t : Tree) (dd : List Str) : SortedByName (sortConfs (collectConfs t dd)) :=
+  sortConfs_sorted _
+
+/-- the hypotheses are met by a concrete tree: the same name in two search directories, a second name only in the later -/
+example :
+    let t : Tree := { searchDirs := [s "/s1", s "/s2"],
+                      files := [(s "/s1/a.container", []), (s "/s1/a.container.d/10.conf", []), (s "/s2/a.container.d/10.conf", []),
+                                (s "/s2/a.container.d/05.conf", [])] }
+    sortConfs (collectConfs t (dropinDirs [s "/s1", s "/s2"] (s "a.container")))
+      = [(s "05.conf", s "/s2/a.container.d/05.conf"), (s "10.conf", s "/s1/a.container.d/10.conf")] := by decide
 
 end Cv
